@@ -52,6 +52,7 @@ type Contract struct {
 	Safety   map[string]bool
 	Requires []*Clause
 	Ensures  []*Clause
+	EnsuresTrusted []*Clause // "ensures-trusted P": assumed at call sites like an ensures clause but NOT checked against the body (the part of a partially verified contract that stays an assumption, e.g. the CBOR round trip of a state accessor); listed in the evidence
 	Stable   []*Clause // "stable P": two-state clause over the receiver only that every call establishes AND that is closed under composition (checked); the container/heap models assume it for the unknown sequence of Swap calls the library makes
 	Defines  []*Clause // definitional postconditions: introduce an uninterpreted predicate as "this deterministic function accepts"; assumed at call sites, not checked
 	ClosureAccepts map[int]*Clause // "closure N accepts P": whenever the N-th function literal returns a nil error, P holds of its arguments
@@ -111,7 +112,7 @@ type Lemma struct {
 var clauseKeywords = map[string]bool{
 	"func": true, "props": true, "safety": true, "requires": true, "ensures": true,
 	"modifies": true, "loop": true, "trusted": true, "pure": true, "opaque": true, "ghost": true,
-	"global": true, "lemma": true, "assumes": true, "import": true, "note": true, "cases": true, "end": true, "trustframe": true, "ensures-local": true, "defines": true, "precall": true, "closure": true, "iface": true, "init": true, "nowrite": true, "assume-pre": true, "stable": true, "bodyonly": true,
+	"global": true, "lemma": true, "assumes": true, "import": true, "note": true, "cases": true, "end": true, "trustframe": true, "ensures-local": true, "defines": true, "precall": true, "closure": true, "iface": true, "init": true, "nowrite": true, "assume-pre": true, "stable": true, "bodyonly": true, "ensures-trusted": true,
 }
 
 var funcKeyRe = regexp.MustCompile(`^(?:\(\s*\*?\s*(\w+)\s*\)\s*\.\s*(\w+)|(\w+)\s*\.\s*(\w+)|(\w+))`)
@@ -271,6 +272,10 @@ func parseSpecFile(path, relDir string) (*PkgSpec, error) {
 				cur.Requires = append(cur.Requires, mk("requires", it.text, it.line, len(cur.Requires)))
 			case "ensures":
 				cur.Ensures = append(cur.Ensures, mk("ensures", it.text, it.line, len(cur.Ensures)))
+			case "ensures-trusted":
+				c := mk("ensures", it.text, it.line, len(cur.EnsuresTrusted))
+				c.Label = fmt.Sprintf("ensurestrusted%d", len(cur.EnsuresTrusted))
+				cur.EnsuresTrusted = append(cur.EnsuresTrusted, c)
 			case "stable":
 				c := mk("ensures", it.text, it.line, len(cur.Stable))
 				c.Label = fmt.Sprintf("stable%d", len(cur.Stable))
